@@ -68,7 +68,7 @@ def main(claimed):
             na.append({"property_id": pid, "reason": f"check under construction in this build round ({CHECKS[pid]['ref']}); will be claimed"})
     m = {
         "version": 1,
-        "setup_cmd": "cd /verif/sim && CARGO_NET_OFFLINE=true cargo build --release --offline",
+        "setup_cmd": "cd /verif/sim && export CARGO_NET_OFFLINE=true && cargo build --release --offline && for w in c13 c18 c19 c20; do cargo build --release --offline -p palsim --bin palsim-$w --no-default-features --features $w || exit 1; done",
         "hooks": {
             "guard": "palette_verif",
             "enable": "no hooks are needed: every seam the simulator uses (Rng, Serializer/Deserializer, io::Read/Write, IntoIterator, FnMut, user color types) is already a trait or generic parameter of palette's public API; palette is built unmodified from /repo as a path dependency with features random+serializing",
